@@ -7,9 +7,9 @@ use super::*;
 
 fn digit() -> f64 { let v: u8 = kani::any(); kani::assume(v < 16); v as f64 }
 
-/// f_dx stub: base-16 code of (k0.x, k0.y, k1.x, k1.y, k2.x, k2.y)  (< 2^24, exact)
+/// f_dx stub: base-32 code of (k0.x, k0.y, k1.x, k1.y, k2.x, k2.y)  (coordinates < 32, code < 2^30, exact)
 fn rec_f_dx(k0: Knot, k1: Knot, k2: Knot) -> f64 {
-    ((((k0.x * 16.0 + k0.y) * 16.0 + k1.x) * 16.0 + k1.y) * 16.0 + k2.x) * 16.0 + k2.y
+    ((((k0.x * 32.0 + k0.y) * 32.0 + k1.x) * 32.0 + k1.y) * 32.0 + k2.x) * 32.0 + k2.y
 }
 fn rec_segment_left(f0: f64, k0: Knot, f1: f64, k1: Knot) -> Segment<Poly3> {
     Segment { end: k1.x, poly: Poly3([f0, k0.x, k0.y, f1]) }
@@ -18,10 +18,12 @@ fn rec_segment_right(f0: f64, k0: Knot, f1: f64, k1: Knot) -> Segment<Poly3> {
     Segment { end: k0.x, poly: Poly3([f1, k1.x, k1.y, f0]) }
 }
 
-fn c04_wiring<const N: usize>(right: bool) {
+fn c04_wiring<const N: usize>(right: bool) { c04_wiring_x::<N>(right, false) }
+/// `long`: abscissae are the concrete integers 0..N-1 (N <= 32), ordinates symbolic digits - for long knot lists
+fn c04_wiring_x<const N: usize>(right: bool, long: bool) {
     let mut ks = [Knot { x: 0.0, y: 0.0 }; N];
     let mut i = 0;
-    while i < N { ks[i] = Knot { x: digit(), y: digit() }; i += 1; }
+    while i < N { ks[i] = Knot { x: if long { i as f64 } else { digit() }, y: digit() }; i += 1; }
     // strictly increasing abscissae (the property's precondition; also keeps the end-slope divisions finite)
     let mut i = 1;
     while i < N { kani::assume(ks[i - 1].x < ks[i].x); i += 1; }
@@ -60,6 +62,11 @@ c04! {
     c04_wiring_right_n3, 3, true, rec_segment_right; c04_wiring_right_n4, 4, true, rec_segment_right; c04_wiring_right_n5, 5, true, rec_segment_right;
     c04_wiring_right_n6, 6, true, rec_segment_right;
 }
+// long knot lists (the kernels are stubs, so this is iterator plumbing only)
+#[kani::proof] #[kani::stub(f_dx, rec_f_dx)] #[kani::stub(segment, rec_segment_left)] #[kani::unwind(15)] fn c04_wiring_left_n12() { c04_wiring_x::<12>(false, true) }
+#[kani::proof] #[kani::stub(f_dx, rec_f_dx)] #[kani::stub(segment, rec_segment_right)] #[kani::unwind(15)] fn c04_wiring_right_n12() { c04_wiring_x::<12>(true, true) }
+#[kani::proof] #[kani::stub(f_dx, rec_f_dx)] #[kani::stub(segment, rec_segment_left)] #[kani::unwind(23)] fn c04_wiring_left_n20() { c04_wiring_x::<20>(false, true) }
+#[kani::proof] #[kani::stub(f_dx, rec_f_dx)] #[kani::stub(segment, rec_segment_right)] #[kani::unwind(23)] fn c04_wiring_right_n20() { c04_wiring_x::<20>(true, true) }
 #[kani::proof]
 #[kani::unwind(4)]
 #[kani::should_panic]
